@@ -151,6 +151,7 @@ int main(void) {
                 size_t isz = ic[ii++ % ni], osz = oc[oi++ % no]; ZSTD_inBuffer ib; ZSTD_outBuffer ob; ZSTD_EndDirective dir; char dc = dirs[di++ % nd];
                 if (isz > n - consumed) isz = n - consumed;
                 if (osz > cap - produced) osz = cap - produced;
+                if (dc == 'u' || dc == 'w') { ZSTD_CCtx_setParameter(cctx, ZSTD_c_compressionLevel, dc == 'u' ? 12 : 1); dc = 'c'; }   /* parameter change in mid-frame (allowed for the level): 'u' raises it, 'w' lowers it */
                 dir = dc == 'f' ? ZSTD_e_flush : dc == 'e' ? ZSTD_e_end : ZSTD_e_continue;
                 if (consumed == n && isz == 0) dir = ZSTD_e_end;      /* all input delivered: finish */
                 if (dir == ZSTD_e_end && consumed + isz < n) dir = ZSTD_e_flush;                   /* only end with the last input (single frame) */
